@@ -24,6 +24,8 @@ use crate::sched::{explore, ActorBody, ActorCtx, Exec};
 enum Kind {
     Session,
     Task,
+    /// two emitters of one task (its stdout and stderr readers) and one subscriber
+    TaskTwoEmitters,
     Thread,
     ThreadColdCache,
 }
@@ -39,7 +41,7 @@ struct World {
 fn filter_for(kind: Kind) -> Vec<&'static str> {
     match kind {
         Kind::Session => vec!["sess.publish", "sess.buffer", "sse.session.*", "sub.*", "start"],
-        Kind::Task => vec!["task.publish", "task.buffer", "task.seq", "sse.task.*", "sub.*", "start"],
+        Kind::Task | Kind::TaskTwoEmitters => vec!["task.publish", "task.buffer", "task.seq", "sse.task.*", "sub.*", "start"],
         Kind::Thread | Kind::ThreadColdCache => vec![
             "cont.publish",
             "sse.thread.*",
@@ -56,7 +58,7 @@ fn filter_for(kind: Kind) -> Vec<&'static str> {
 }
 
 /// Subscriber: the real handler via the router, then the body polled frame by frame.
-fn subscriber(router: axum::Router, uri: String, sink: Arc<Mutex<Vec<(u64, String)>>>, status: Arc<Mutex<Option<u16>>>, rt: Arc<tokio::runtime::Runtime>, expected: usize) -> ActorBody {
+fn subscriber(router: axum::Router, uri: String, sink: Arc<Mutex<Vec<(u64, String)>>>, status: Arc<Mutex<Option<u16>>>, rt: Arc<tokio::runtime::Runtime>, expected: usize, producers: usize) -> ActorBody {
     Box::new(move |ctx: &ActorCtx| {
         let _g = rt.enter();
         let req = Request::builder().uri(uri).body(Body::empty()).unwrap();
@@ -110,7 +112,7 @@ fn subscriber(router: axum::Router, uri: String, sink: Arc<Mutex<Vec<(u64, Strin
                 }
             }
             if phase == 0 {
-                ctx.wait_finished("sub.drain", &[0]);
+                ctx.wait_finished("sub.drain", &(0..producers).collect::<Vec<_>>());
             }
         }
     })
@@ -162,6 +164,27 @@ fn make_world(kind: Kind, rt: &Arc<tokio::runtime::Runtime>, subscribers: usize)
             uri = format!("/tasks/{tid}/events");
             expected_frames = 3;
         }
+        Kind::TaskTwoEmitters => {
+            let mk = |who: &str| {
+                vec![
+                    EventKind::ToolTaskCancelRequested { task_id: "t".into(), reason: format!("{who}1") },
+                    EventKind::ToolTaskCancelRequested { task_id: "t".into(), reason: format!("{who}2") },
+                ]
+            };
+            let (tid, futs) = rt
+                .block_on(app.create_task_emit_futures(json!({"tool": "bash", "args": {"command": "true"}}), vec![mk("out"), mk("err")]))
+                .expect("task");
+            for fut in futs {
+                let rt2 = rt.clone();
+                actors.push(Box::new(move |ctx: &ActorCtx| {
+                    let _g = rt2.enter();
+                    ctx.block_on(fut);
+                }));
+            }
+            stream_id = tid.clone();
+            uri = format!("/tasks/{tid}/events");
+            expected_frames = 4;
+        }
         Kind::Thread | Kind::ThreadColdCache => {
             let store = fx.store();
             let thread = store.ensure_default().expect("thread");
@@ -181,12 +204,13 @@ fn make_world(kind: Kind, rt: &Arc<tokio::runtime::Runtime>, subscribers: usize)
             expected_frames = 4; // created, m0, m1, m2
         }
     }
+    let producers = actors.len();
     for _ in 0..subscribers {
         let sink = Arc::new(Mutex::new(Vec::new()));
         let status = Arc::new(Mutex::new(None));
         received.push(sink.clone());
         statuses.push(status.clone());
-        actors.push(subscriber(router.clone(), uri.clone(), sink, status, rt.clone(), expected_frames));
+        actors.push(subscriber(router.clone(), uri.clone(), sink, status, rt.clone(), expected_frames, producers));
     }
     (World { fx, stream_id, received, statuses, expected_frames }, actors)
 }
@@ -220,6 +244,9 @@ fn check_exec(report: &Report, kind: Kind, subscribers: usize, world: &World, ex
         .filter(|e| e.stream_id() == world.stream_id)
         .map(|e| (e.seq, e.id.clone()))
         .collect();
+    // several emitters: the stream is its frames in seq order (the log's file order is C01's business)
+    let mut truth = truth;
+    truth.sort();
     if truth.len() != world.expected_frames {
         report.violation(
             &format!("C06:harness:truth_frames:{kind:?}"),
@@ -317,6 +344,7 @@ pub fn replay(report: &Report, case: &Value) {
     let kind = match case["harness"].as_str().unwrap_or("") {
         "c06.Session" => Kind::Session,
         "c06.Task" => Kind::Task,
+        "c06.TaskTwoEmitters" => Kind::TaskTwoEmitters,
         "c06.Thread" => Kind::Thread,
         _ => Kind::ThreadColdCache,
     };
@@ -372,6 +400,10 @@ pub fn run(opts: Opts) -> i32 {
                 scope.spawn(move || run_harness(report, kind, 2, 2));
             }
         }
+        // two emitters + one subscriber: three actors, bounded
+        let report = &report;
+        let b = tier.pick(2, 3);
+        scope.spawn(move || run_harness(report, Kind::TaskTwoEmitters, 1, b));
     });
     report.sample(json!({"harness": "c06.Session", "actors": ["producer: run_session('hello')", "subscriber: GET /sessions/{id}/events"], "schedule_example": ["0:start", "0:sess.publish", "1:start", "1:sse.session.subscribe", "1:sse.session.snapshot", "0:sess.buffer", "..."]}));
     report.finish()
